@@ -201,14 +201,29 @@ func (fs *FS) FindWithPrefixAndSuffix(prefix, suffix string) ([]string, error) {
 		return nil, f.Err
 	}
 	var m []string
-	for k := range fs.Files {
-		if len(k) >= len(prefix)+len(suffix) && strings.HasPrefix(k, prefix) && strings.HasSuffix(k, suffix) {
+	seen := map[string]bool{}
+	match := func(k string) {
+		if !seen[k] && len(k) >= len(prefix)+len(suffix) && strings.HasPrefix(k, prefix) && strings.HasSuffix(k, suffix) {
 			mid := k[len(prefix) : len(k)-len(suffix)]
 			if strings.Contains(mid, "/") {
-				continue
+				return
 			}
+			seen[k] = true
 			m = append(m, k)
 		}
+	}
+	for k := range fs.Files {
+		match(k)
+		// a directory entry matches a pattern like any other entry (filepath.Glob does not tell them apart): the
+		// ancestors of k below the pattern's directory
+		if strings.HasPrefix(k, prefix) {
+			if i := strings.Index(k[len(prefix):], "/"); i >= 0 {
+				match(k[:len(prefix)+i])
+			}
+		}
+	}
+	for k := range fs.Dirs {
+		match(k)
 	}
 	sort.Strings(m)
 	if fs.Order != nil {
